@@ -64,7 +64,7 @@ func (i *FSImporter) Import(ctx context.Context, name string) (*object.Module, e
 
 	code, err := parseAndCompile(ctx, source, fullPath, i.globalNames)
 	if err != nil {
-		return nil, err
+		return nil, &ModuleError{Name: name, Err: err}
 	}
 
 	i.codeCache[name] = code
